@@ -210,9 +210,13 @@ package vm
 //@   witness ctxnil: c.ctx == nil
 //@ end
 
-//@ func (*vm.contextWriter).CloneWithCtx
+// C14 / C17: the clone is a fresh object carrying the given context; the shared instance held in the
+// package-level precompile map is not touched (it is visible to every EVM of the process).
+//@ func (*vm.contextWriter).CloneWithCtx(c, ctx) (clone)
 //@   verify
 //@   safety [C03 C14]
+//@   ensures fresh-clone [C14 C17]: dyntype_is(clone, "*vm.contextWriter") && obj(clone) != 0 && fresh(clone)
+//@   modifies alloc
 //@ end
 
 // EIP-5656: MCOPY copies like an overlap-safe memmove. The precondition is what the interpreter
